@@ -306,6 +306,10 @@ var c18Tokens = []struct{ line, tok, class string }{
 	{"PING :1234567890", "1234567890", "digits"},
 	{"PING : lead space", " lead space", "lead-space"},
 	{"@t=1 PING :tagged", "tagged", "tagged"},
+	{"PING :trail ", "trail ", "trailing-space"},
+	{"PING :tab\t", "tab\t", "trailing-tab"},
+	{"PING : ", " ", "only-space"},
+	{"PING :  both  ", "  both  ", "padded"},
 }
 
 func runC18Ping(c *Ctx) {
